@@ -279,6 +279,7 @@ fn events_hash(ev: &[Event]) -> u64 {
         match e {
             Event::Spawn { tid } => s.push_str(&format!("T{};", tid)),
             Event::Expand { tid, input } => s.push_str(&format!("E{},{};", tid, input)),
+            Event::ExpandTokens { tid, input } => s.push_str(&format!("Et{},{};", tid, input)),
             Event::Perturb { tid, n, seed } => s.push_str(&format!("P{},{},{};", tid, n, seed)),
             Event::Order { tid, policy, seed } => s.push_str(&format!("O{},{},{};", tid, policy, seed)),
             Event::OrderAt { tid, policy, seed, site } => s.push_str(&format!("O{},{},{},{};", tid, policy, seed, site)),
@@ -295,6 +296,7 @@ fn host_summary(h: &HostCfg) -> Value {
         .map(|e| match e {
             Event::Spawn { tid } => format!("spawn(t{})", tid),
             Event::Expand { tid, input } => format!("expand(t{},i{})", tid, input),
+            Event::ExpandTokens { tid, input } => format!("expand_token_built(t{},i{})", tid, input),
             Event::Perturb { tid, n, .. } => format!("perturb(t{},{})", tid, n),
             Event::Order { tid, policy, seed } => format!("order(t{},p{},s{})", tid, policy, seed),
             Event::OrderAt { tid, policy, site, .. } => format!("order(t{},p{},at {})", tid, policy, site),
@@ -401,7 +403,7 @@ fn run_planned_world(env: &Env, idx: usize, ws: u64, w: World, want_sample: bool
             fs_names.insert(n.to_string());
             st.fs_names_in_expansion.insert(n.to_string());
         }
-        let n_exp = h.events.iter().filter(|e| matches!(e, Event::Expand { .. })).count();
+        let n_exp = h.events.iter().filter(|e| matches!(e, Event::Expand { .. } | Event::ExpandTokens { .. })).count();
         if n_exp >= 250 {
             st.marathon_hosts += 1;
         }
@@ -443,7 +445,7 @@ fn run_planned_world(env: &Env, idx: usize, ws: u64, w: World, want_sample: bool
             }
             st.prefix_lengths.insert(n_before);
             // hooked probes
-            let r = reference.obs.iter().find(|r| r.input == o.input);
+            let r = reference.obs.iter().find(|r| r.input == o.input && r.token_built == o.token_built);
             for (pi, p) in o.probes.iter().enumerate() {
                 let e = st.sites.entry(format!("{}:{}", p.site, p.op)).or_default();
                 e.iterations += 1;
@@ -583,6 +585,7 @@ fn hostcfg_to_json(h: &HostCfg) -> Value {
         .map(|e| match e {
             Event::Spawn { tid } => json!({"op": "spawn", "tid": tid}),
             Event::Expand { tid, input } => json!({"op": "expand", "tid": tid, "input": input}),
+            Event::ExpandTokens { tid, input } => json!({"op": "expand_token_built", "tid": tid, "input": input}),
             Event::Perturb { tid, n, seed } => json!({"op": "perturb", "tid": tid, "n": n, "seed": seed.to_string()}),
             Event::Order { tid, policy, seed } => json!({"op": "order", "tid": tid, "policy": policy, "seed": seed.to_string()}),
             Event::OrderAt { tid, policy, seed, site } => json!({"op": "order_at", "tid": tid, "policy": policy, "seed": seed.to_string(), "site": site}),
@@ -629,6 +632,7 @@ fn hostcfg_from_json(v: &Value) -> Option<HostCfg> {
         h.events.push(match e["op"].as_str()? {
             "spawn" => Event::Spawn { tid },
             "expand" => Event::Expand { tid, input: e["input"].as_u64()? as u32 },
+            "expand_token_built" => Event::ExpandTokens { tid, input: e["input"].as_u64()? as u32 },
             "perturb" => Event::Perturb { tid, n: e["n"].as_u64()? as u32, seed: e["seed"].as_str()?.parse().ok()? },
             "order" => Event::Order { tid, policy: e["policy"].as_u64()? as u8, seed: e["seed"].as_str()?.parse().ok()? },
             "order_at" => Event::OrderAt { tid, policy: e["policy"].as_u64()? as u8, seed: e["seed"].as_str()?.parse().ok()?, site: e["site"].as_str()?.to_string() },
@@ -640,7 +644,7 @@ fn hostcfg_from_json(v: &Value) -> Option<HostCfg> {
 }
 
 fn obs_json(o: &plan::Obs) -> Value {
-    json!({"thread": o.tid, "position": o.pos, "verdict": o.verdict, "text": o.text.split('\u{1f}').filter(|x| !x.is_empty()).collect::<Vec<_>>(), "spans": o.spans,
+    json!({"thread": o.tid, "position": o.pos, "token_built": o.token_built, "verdict": o.verdict, "text": o.text.split('\u{1f}').filter(|x| !x.is_empty()).collect::<Vec<_>>(), "spans": o.spans,
            "probes": o.probes.iter().map(|p| format!("{}:{} len={} order={}", p.site, p.op, p.len, p.order_sig)).collect::<Vec<_>>()})
 }
 
